@@ -105,7 +105,7 @@ PropsOf(e, pre, post) ==
 
 ---------------------------------------------------------------------------
 (* SQL queries over $_keyspace (C19) and view queries (C12) of one collection *)
-AuxKinds == {"q-all", "q-v", "q-s", "view", "viewdesc", "viewlimit", "viewkey", "viewcount"}
+AuxKinds == {"q-all", "q-v", "q-s", "view", "viewdesc", "viewlimit", "viewkey", "viewcount", "ddoc"}
 RowOf(r) == [id |-> r.id, body |-> B(r.body), xa |-> XaOf(r.xa), vals |-> r.vals]
 RowsOf(s) == IF Len(s) = 0 THEN <<>> ELSE [i \in 1..Len(s) |-> RowOf(s[i])]
 TokRank(t) == CASE t = "-" -> 0 [] t = "J1" -> 1 [] t = "J2" -> 2 [] t = "J3" -> 3 [] t = "x1" -> 1 [] t = "x2" -> 2 [] OTHER -> 9
@@ -142,6 +142,7 @@ ExpectedAuxV(kind, ds, variant) ==
       [] kind = "viewdesc" -> Rev(ViewSeq(ds))
       [] kind = "viewlimit" -> IF ViewSeq(ds) = <<>> THEN <<>> ELSE <<ViewSeq(ds)[1]>>
       [] kind = "viewkey" -> SelSeq(ViewSeq(ds), LAMBDA r : r.vals[1] = "J1" /\ r.vals[2] = "-")
+      [] kind = "ddoc" -> <<[id |-> "vd", body |-> NoBody, xa |-> NoXa, vals |-> <<variant, variant, "1">>]>>   \* GetDDoc, GetDDocs
       [] OTHER -> <<>>
 BriefRows(s) == [i \in 1..Len(s) |-> <<s[i].id, BB(s[i].body), s[i].vals, [x \in XNames |-> s[i].xa[x].t]>>]
 CountOKV(rows, ds, variant) ==
